@@ -678,6 +678,18 @@ func (g *c22Gen) next() ([]byte, TxMeta, bool) {
 	x := r.Intn(100)
 	switch {
 	case x < 16:
+		if r.Intn(8) == 0 {
+			// a ticker of the form pool tokens get ("LP-<pool id>") for a pool that does not exist yet (lead: added after seed
+			// C13-m3): if the node accepts it, the pool created next has a pool token whose ticker is already active
+			next := uint64(1)
+			for _, p := range g.s.Post.Pools {
+				if p.ID >= next {
+					next = p.ID + 1
+				}
+			}
+			b, m := g.env(ct, g.createData(ct, fmt.Sprintf("LP-%d", next+uint64(r.Intn(3)))), g.rich(), "create-pool-token-ticker")
+			return b, m, true
+		}
 		b, m := g.env(ct, g.createData(ct, g.freshSymbol()), g.rich(), "create-fresh")
 		return b, m, true
 	case x < 22:
